@@ -298,6 +298,8 @@ Definition wstep (w : wstate) (o : wop) : wstate * list frame :=
       else (w, [])
   | OUnknown r name => (with_remote w r (fun u => push_special u (SLaneNotFound name)), [])
   | OEvent lane (Some r) rs =>
+      (* an answer for a remote that has gone away is dropped: nothing is linked or written *)
+      if negb (has_remote w r) then (w, []) else
       if linked lane r (w_links w) then (with_remote w r (fun u => push_resp u lane rs), [])
       else
         let w1 := with_remote (set_links w (link_add lane r (w_links w))) r (fun u => push_special u (SLinked lane)) in
